@@ -48,7 +48,7 @@ pub fn first_diff(a: &str, b: &str) -> String {
 
 /// The errors and binding rules C10 names, as fixed sessions: (lines typed, then expected transcript
 /// of the last one; `*` in the expectation stands for any text without a line break).
-const C10_CORPUS: [(&[&str], &str); 22] = [
+const C10_CORPUS: [(&[&str], &str); 24] = [
     (&["10 DEF FNA(X)=X*2", "20 PRINT FNA(3)", "RUN", "DELETE 10", "PRINT FNA(3)"], "?UNDEFINED USER FUNCTION\nREADY.\n<STOPPED>"),
     (&["10 DEF FNA(X)=X*2", "20 PRINT FNA(3)", "RUN", "RENUM", "PRINT FNA(3)"], "?UNDEFINED USER FUNCTION\nREADY.\n<STOPPED>"),
     (&["10 N=4", "20 DEF FNM$(S$,N)=MID$(S$,N,1)", "30 PRINT FNM$(\"HELLO\",2)", "RUN"], "E\nREADY.\n<STOPPED>"),
@@ -71,6 +71,9 @@ const C10_CORPUS: [(&[&str], &str); 22] = [
     (&["10 DEF FNA(X)=X+1", "20 PRINT FNA(1)", "RUN", "IF 1 THEN DEF FNA(X)=X*100", "PRINT FNA(1)"], " 2 \nREADY.\n<STOPPED>"),
     (&["10 V#=7:W%=3:S$=\"KEEP\"", "20 DEF FNH#(V#,W%,S$)=V#*2+W%+LEN(S$)", "30 PRINT FNH#(5,1,\"AB\");V#;W%;S$", "RUN"], " 13  7  3 KEEP\nREADY.\n<STOPPED>"),
     (&["10 DEF FNI#(N#)=N#+1", "20 DEF FNO#(N#)=FNI#(N#*10)+N#", "30 PRINT FNO#(2)", "RUN"], " 23 \nREADY.\n<STOPPED>"),
+    // functions whose names differ only in the type character are different functions with parameters of their own
+    (&["10 DEF FNA$(N)=STRING$(N,\"*\")", "20 DEF FNA(N)=LEN(FNA$(N+2))+N", "30 PRINT FNA(3)", "RUN"], " 8 \nREADY.\n<STOPPED>"),
+    (&["10 DEF FNA%(N)=N*2", "20 DEF FNA#(N)=FNA%(N+1)+N", "30 PRINT FNA#(4);FNA%(1)", "RUN"], " 14  2 \nREADY.\n<STOPPED>"),
 ];
 
 /// READ converts each constant to the receiving variable's type exactly as an assignment would: the same program
